@@ -122,7 +122,8 @@ func TestC19Cdi(t *testing.T) {
 	rapid.Check(t, func(t *rapid.T) {
 		root := sc.dir()
 		defer os.RemoveAll(root)
-		l := layout.Generate(t, root, layout.Options{NoMissing: true, MaxFiles: 3, Edits: c02Edits})
+		// one layout in four may have missing directories: the library then reports directory-level errors as well
+		l := layout.Generate(t, root, layout.Options{NoMissing: rapid.IntRange(0, 3).Draw(t, "allowMissing") != 0, MaxFiles: 3, Edits: c02Edits})
 		if len(l.Slots) == 0 {
 			l.Slots, l.Spelling = []int{0}, []string{l.Path(0)}
 		}
